@@ -125,5 +125,54 @@ int main(int argc, char **argv)
         all_caps("rtosc_bundle", [&](char *b, size_t len) { return call_bundle(b, len, tt, ptrs); }, expect, cid, shape);
         if(si % 97 == 0) vp::sample(cid + " (" + std::to_string(expect.size()) + " bytes) x capacities 0.." + std::to_string(expect.size() + 8));
     }
+    // bundles of 9..40 elements (the variadic call takes any count)
+    {
+        static const int COUNTS[] = {9, 12, 15, 16, 17, 18, 21, 24, 32, 33, 40};
+        vp::bound("long_bundles", "9,12,15,16,17,18,21,24,32,33,40 elements alternating m8/m12 or all m8, every capacity 0..needed+8");
+        for(int n : COUNTS) for(int alt = 0; alt < 2; ++alt, ++top) {
+            if(!vp::mine(top)) continue;
+            std::string cid = "longbundle|n" + std::to_string(n) + "|alt" + std::to_string(alt);
+            if(!vp::want(cid)) continue;
+            vp::current_case() = cid;
+            std::vector<std::string> eb; std::vector<const char *> ptrs;
+            for(int i = 0; i < n; ++i) { int k = alt ? (i & 1) : 0; eb.push_back(alph[k].bytes); ptrs.push_back(mem[k].data()); }
+            std::string expect = ref::bundle(bgen::TIMETAGS[n % bgen::N_TIMETAGS], eb);
+            vp::state(); vp::eval(); vp::nontrivial(vp::fnv(expect) ^ 2); vp::trace();
+            uint64_t tt = bgen::TIMETAGS[n % bgen::N_TIMETAGS];
+            all_caps("rtosc_bundle", [&](char *b, size_t len) { return call_bundle(b, len, tt, ptrs); }, expect, cid, "many-message-elements");
+        }
+    }
+    // long strings and blobs (sizes around 256, 512, 1024 and 4096), alone or next to another argument
+    {
+        static const size_t LENS[] = {124, 127, 128, 252, 255, 256, 257, 260, 511, 512, 1020, 1024, 4092, 4096};
+        static const char *SHAPES[] = {"s", "si", "is", "b", "bi", "ib", "bs", "sb"};
+        vp::bound("long_payloads", "string/blob of 124,127,128,252,255,256,257,260,511,512,1020,1024,4092,4096 bytes in {s,si,is,b,bi,ib,bs,sb} (blob data given or NULL), every capacity 0..needed+8");
+        for(size_t L : LENS) for(const char *sh : SHAPES) for(int nulldata = 0; nulldata < 2; ++nulldata, ++top) {
+            if(!vp::mine(top)) continue;
+            std::string ts = sh;
+            if(nulldata && ts.find('b') == std::string::npos) continue;
+            std::string cid = "long|" + std::to_string(L) + "|" + ts + "|null" + std::to_string(nulldata);
+            if(!vp::want(cid)) continue;
+            vp::current_case() = cid;
+            std::vector<ref::Arg> args; std::vector<std::vector<unsigned char>> keep; std::vector<std::string> keeps;
+            for(char t : ts) {
+                ref::Arg a; a.type = t;
+                if(t == 's') a.s = std::string(L, 'q');
+                else if(t == 'b') { a.b_len = (uint32_t)L; if(nulldata) a.b_null = true; else { a.b.resize(L); for(size_t k = 0; k < L; ++k) a.b[k] = (unsigned char)(k * 13 + 0x81); } }
+                else a.u32 = 0x80000001u;
+                args.push_back(a);
+            }
+            std::string addr = "/p", expect = ref::encode(addr, ts, args);
+            vp::state(); vp::eval(); vp::nontrivial(vp::fnv(expect) ^ 3); vp::trace();
+            std::vector<rtosc_arg_t> ra; for(auto &a : args) ra.push_back(gen::to_rtosc(a));
+            std::string shape = std::string("long-") + (ts.find('b') != std::string::npos ? "blob" : "string");
+            all_caps("rtosc_amessage", [&](char *b, size_t n) { return rtosc_amessage(b, n, addr.c_str(), ts.c_str(), ra.data()); }, expect, cid, shape);
+            CArg c[64]; bool snan; int n = flatten(ts, args, c, snan);
+            all_caps("rtosc_message", [&](char *b, size_t len) { return call_varargs(b, len, addr.c_str(), ts.c_str(), c, n); }, expect, cid, shape);
+            vp::transition();
+            size_t need = rtosc_amessage(nullptr, 0, addr.c_str(), ts.c_str(), ra.data());
+            if(need != expect.size()) vp::violation("null-buffer-size|rtosc_amessage|" + shape, cid, "reports " + std::to_string(need) + ", encoding has " + std::to_string(expect.size()));
+        }
+    }
     return vp::finish();
 }
